@@ -52,7 +52,9 @@ def grammar_text(case):
 
 
 def x_recognizer(input, pos):
-    if input[pos] == BANG:
+    # raises on '!' and - so that a parse can be aborted while *another* head of the same frontier has
+    # already found its token - on a terminal's text directly followed by '!' ("b!": 'b' matches there)
+    if input[pos] == BANG or input[pos + 1:pos + 2] == BANG:
         raise RuntimeError("recognizer boom")
     if input[pos] == "x":
         return "x"
@@ -225,15 +227,48 @@ SPEC = st.fixed_dictionaries({"cls": st.sampled_from(["LR", "LR", "GLR"]), "tabl
                               "recovery": st.booleans(), "strict": st.integers(0, 3).map(lambda x: x == 0)})
 
 
+# grammars in which two GLR heads of one frontier sit in different states expecting different terminals
+# (the place where a parse aborted half-way through a frontier leaves something behind)
+SPLIT_HEADS = [
+    {"nts": ["S", "A", "B", "C", "D"],
+     "prods": [["S", ["A", "C"]], ["S", ["B", "D"]], ["A", ["{2}"]], ["B", ["{2}"]], ["C", ["{2}", "{0}"]],
+               ["D", ["{2}", "{1}"]]]},
+    {"nts": ["S", "A", "B", "C", "D"],
+     "prods": [["S", ["S", "S"]], ["S", ["A", "C"]], ["S", ["B", "D"]], ["A", ["{2}"]], ["B", ["{2}"]],
+               ["C", ["{2}", "{0}"]], ["D", ["{2}", "{1}"]], ["D", ["{2}", "{2}"]]]},
+    {"nts": ["S", "A", "B", "C", "D"],
+     "prods": [["S", ["A", "C"]], ["S", ["B", "D"]], ["A", ["A", "{2}"]], ["A", []], ["B", ["B", "{2}"]], ["B", []],
+               ["C", ["{0}"]], ["D", ["{1}"]]]},
+]
+
+
 @st.composite
 def cases(draw):
     pool = [("a", "str", "a"), ("b", "str", "b"), ("c", "str", "c"), ("x", "str", "x")]
-    g = draw(gen.cfgs(max_nts=3, max_alts=3, max_rhs=3, min_terms=2, max_terms=3, terms_pool=pool))
+    split = draw(st.integers(0, 3)) == 0
+    if split:
+        tpl = draw(st.sampled_from(SPLIT_HEADS))
+        others = draw(st.permutations(["a", "b", "c"]))
+        # one of the two competing terminals is the one with the raising recognizer
+        names = ["x", others[0], others[1]] if draw(st.booleans()) else [others[0], "x", others[1]]
+        g = {"nts": tpl["nts"], "terms": [list(t) for t in pool if t[0] in names],
+             "prods": [[lhs, [sym.format(*names) if sym.startswith("{") else sym for sym in rhs]]
+                       for lhs, rhs in tpl["prods"]]}
+    else:
+        g = draw(gen.cfgs(max_nts=3, max_alts=3, max_rhs=3, min_terms=2, max_terms=3, terms_pool=pool))
     tn = [t[0] for t in g["terms"]]
-    tok = st.sampled_from(tn + tn + [BANG, "#"])
-    inputs = [" ".join(draw(st.lists(tok, min_size=0, max_size=5))) for _ in range(4)]
-    inputs.append(" ".join(tn))
+    tok = st.sampled_from(tn + tn + [BANG, "#"] + [t + BANG for t in tn if t != "x"])
+    # layout before the first token as well: what a parse leaves behind about position 0 matters
+    lead = st.sampled_from(["", "", "", " ", "  ", "\t", "\n", "// c\n", " /* c */ "])
+    inputs = [draw(lead) + " ".join(draw(st.lists(tok, min_size=0, max_size=5))) for _ in range(4)]
+    inputs.append(draw(lead) + " ".join(tn))
     inputs.append(tn[0] + " // cm\n " + tn[-1])
+    if split:
+        # the head expecting the plain terminal finds it, the recognizer of the other head raises
+        plain = [n for n in names[:2] if n != "x"][0]
+        inputs[0] = "%s %s %s!" % (names[2], names[2], plain)
+        inputs[1] = "%s %s %s" % (names[2], names[2], draw(st.sampled_from([plain, "x"])))
+        inputs[2] = "%s %s!" % (names[2], plain)
     ops = [{"op": "build", "spec": draw(SPEC)}]
     for _ in range(draw(st.integers(2, 13))):
         if draw(st.integers(0, 3)) == 0:
